@@ -25,7 +25,7 @@ VM = lambda q, t, **kw: dict({"name": "vm", "quick_n": q, "thorough_n": t}, **kw
 CHECKS["C01"] = {
     "gen_ties": ["Builtins"],
     "level": "proof",
-    "lean_targets": ["Yae.Props.C01"],
+    "lean_targets": ["Yae.Props.C01", "Yae.Props.Api"],
     "streams": [
         EVAL(4000, 60000, kinds=["run"], projections=["skeleton"], oracles=["wf"]),
         VM(1500, 20000, kinds=["vmrun"], projections=["skeleton"], oracles=["wf"]),
@@ -33,21 +33,21 @@ CHECKS["C01"] = {
         {"name": "conv", "quick_n": 3000, "thorough_n": 40000, "oracles_only": True, "oracles": ["conv-wf"]},
         {"name": "engine", "quick_n": 1500, "thorough_n": 20000, "oracles": ["api-panic", "process-crash"]},
     ],
-    "explanation": "Preservation is a theorem over the model: check Γ e = ok (T, e') and a conforming environment imply every value eval produces is deeply well formed (WF) with own type tyEq T, irrespective of object field order (C01.preservation, annotated_sound, check_annotated, builtin_sound for all 53 strict built-ins, host_respects, field_order, no_nil); the VM inherits it through C03. The model is tied to the code by the eval/vm streams under the type-skeleton projection, and the implementation-side oracle walks every result of all four back ends against the inferred type with types.Equals. At the boundary: whatever environment the check ACCEPTS, the value produced is well formed (envcheck stream, object-literal results through which every variable flows: envcheck-result-ill-formed), and every value the reflection layer hands over is well formed at every step of a history of conversions of one Go type (conv stream: conv-wf). The engine stream (API histories on one yae.Expr against Engine.run, with overload sets registered in both orders) compares the values produced through the public API with the model's, whose values are well typed by the theorem.",
+    "explanation": "Preservation is a theorem over the model: check Γ e = ok (T, e') and a conforming environment imply every value eval produces is deeply well formed (WF) with own type tyEq T, irrespective of object field order (C01.preservation, annotated_sound, check_annotated, builtin_sound for all 53 strict built-ins, host_respects, field_order, no_nil); the VM inherits it through C03. The model is tied to the code by the eval/vm streams under the type-skeleton projection, and the implementation-side oracle walks every result of all four back ends against the inferred type with types.Equals. At the boundary: whatever environment the check ACCEPTS, the value produced is well formed (envcheck stream, object-literal results through which every variable flows: envcheck-result-ill-formed), and every value the reflection layer hands over is well formed at every step of a history of conversions of one Go type (conv stream: conv-wf). The engine stream (API histories on one yae.Expr against Engine.run, with overload sets registered in both orders) compares the values produced through the public API with the model's, whose values are well typed by the theorem. Through the public API, for EVERY history of calls on a fresh engine (registrations, operator registrations, compiler switches, compilations, invocations of any earlier Callable; Model/Engine.lean): every invocation output is no-callable, an environment error with an empty event log, a value with the type inferred at compile time, or an allowed failure (ApiProps.api_sound, api_sound_early, api_sound_poly, api_sound_same_type); the one condition - with the late-binding compiler interp, no monomorphic key a call was resolved to is registered again with another type between compilation and invocation - cannot be dropped (kernel-checked witness late_binding_breaks_soundness).",
     "assumptions": ["host functions respect their registered signature (hostRespects, decidable for the harness's host zoo); type-variable names of registered signatures do not start with s/t (okVars; true of the built-in table by decide)"],
 }
 
 CHECKS["C02"] = {
     "gen_ties": ["Builtins", "Vm"],
     "level": "proof",
-    "lean_targets": ["Yae.Props.C02", "Yae.Props.C11"],
+    "lean_targets": ["Yae.Props.C02", "Yae.Props.C11", "Yae.Props.Api"],
     "streams": [
         EVAL(4000, 60000, kinds=["run", "pipeline"], projections=["class"], model_is_oracle=True,
              oracles=["internal-fault", "compile-internal-fault", "check-internal-fault", "process-crash"]),
         VM(1500, 20000, kinds=["vmrun", "verify"], projections=["class", "verify"], oracles=["compile-internal-fault", "process-crash"]),
         {"name": "engine", "quick_n": 1500, "thorough_n": 20000, "oracles": ["api-panic", "process-crash"]},
     ],
-    "explanation": "Progress is a theorem over the model: an accepted program in a conforming environment, with fuel above its depth, yields a well-typed value or one of the four documented failures (or a deliberately failing host function / an extern-table miss of the harness) — never another stuck outcome, never fuel (C02.progress, no_internal_fault); exact characterisations of each partial operation (exact_index, exact_key, exact_mod, exact_regex) and totality of get-with-default and every other strict built-in (total_get, total, fail_exact). For the VM: verified code never underflows, never meets a bad opcode or constant kind and terminates within the code size (C11.verify_sound). Tie: outcome-class projection of the eval/vm streams; the oracle classifies every Go panic of all four back ends. The engine stream plays API histories on one yae.Expr (registrations of colliding and overloaded functions in any order, four compilers, invocation of any earlier Callable) against Engine.run: an accepted call that runs another function than the one the checker resolved shows as an outcome the model does not have.",
+    "explanation": "Progress is a theorem over the model: an accepted program in a conforming environment, with fuel above its depth, yields a well-typed value or one of the four documented failures (or a deliberately failing host function / an extern-table miss of the harness) — never another stuck outcome, never fuel (C02.progress, no_internal_fault); exact characterisations of each partial operation (exact_index, exact_key, exact_mod, exact_regex) and totality of get-with-default and every other strict built-in (total_get, total, fail_exact). For the VM: verified code never underflows, never meets a bad opcode or constant kind and terminates within the code size (C11.verify_sound). Tie: outcome-class projection of the eval/vm streams; the oracle classifies every Go panic of all four back ends. The engine stream plays API histories on one yae.Expr (registrations of colliding and overloaded functions in any order, four compilers, invocation of any earlier Callable) against Engine.run: an accepted call that runs another function than the one the checker resolved shows as an outcome the model does not have. Through the public API the same holds for every history of calls on a fresh engine: an invocation never ends in fuel or another stuck outcome (ApiProps.api_sound, case d: Allowed f), and every compilation yields a Callable or a reported error (api_compile_reports).",
     "assumptions": ["same as C01"],
 }
 
